@@ -5,6 +5,7 @@ import ErgoProofs.Lemmas.ConcReach
 import ErgoProofs.Lemmas.ProgramThm
 import ErgoProofs.Lemmas.ProcBytesThm
 import ErgoProofs.Lemmas.LockFileThm
+import ErgoProofs.Lemmas.FilesThm
 namespace Ergo
 open Proc
 
@@ -142,5 +143,23 @@ theorem C02_bytes_are_the_serial_fold (f : Storage.Bytes) (ws : List (List Event
     (s : ProcB.BSys) (h : ProcB.BReachableNT (ProcB.BSys.init f ws nr limit ets) s) :
     Storage.readEvents Codec.classifyLine limit s.file = .ok (Proc.logAfter es s.commits s.commits.length) :=
   ProcB.bytes_are_serial_fold f ws nr limit ets es hf hfw hw s h
+
+/-! ### `init` beside a writer (ErgoModel.Files) -/
+
+/-- `init` creates a missing log without truncating: dropped between any two calls of any writer's program it changes nothing that can be read -/
+theorem C02_init_between_any_two_calls_changes_nothing (s : Files.St) (ops : List Files.Op) (i : Nat) :
+    (Files.run s (ops.take i ++ [.ensureLog false] ++ ops.drop i)).dir.log.getD [] = (Files.run s ops).dir.log.getD [] :=
+  Files.ensure_between_calls s ops i
+
+/-- the defect found by this check and repaired (`fix:` commit, DESIGN §6): created with `O_TRUNC`, an `init` that looked before a writer
+    made and filled the log and acted afterwards emptied it -/
+theorem C02_truncating_init_lost_an_acknowledged_batch :
+    (Files.run { dir := { log := none, tmp := none } } (Files.appendClean true [123, 125, 10] ++ [.ensureLog true])).dir.log = some [] :=
+  Files.ensure_with_trunc_loses_the_batch
+
+/-- every open of an accepted program carries the flag those results depend on -/
+theorem C02_program_open_flags (p : List Program.Call)
+    (h : Program.writerOK p = true ∨ Program.busyOK p = true ∨ Program.readerOK p = true) : ∀ c ∈ p, c ≠ .openBad :=
+  Program.open_flags_kept p h
 
 end Ergo
